@@ -477,6 +477,10 @@ def odd_cases():
                      ('StoryDelete', B.story_delete(['B'], ro_id='OTHER')), ('ReadyToAir', B.ready_to_air(ro_id='OTHER')),
                      ('MetaDataReplace', B.metadata_replace([E('roSlug', text='s')], ro_id='OTHER'))]:
         case(cls, 'other roID', msg)
+    # ... and with a BLANK or padded roID (what a roDelete records is what it carried; completion does not depend on it)
+    for rid, what in ((BLANK, 'blank roID'), ('  ', 'whitespace roID'), (' RO1\n', 'padded roID')):
+        for cls, msg in [('RunningOrderEnd', B.ro_delete(ro_id=rid)), ('StoryAppend', B.story_append([X], ro_id=rid)), ('ReadyToAir', B.ready_to_air(ro_id=rid))]:
+            case(cls, what, msg)
     # completed running orders refuse every class, a second roDelete included
     done = TJ.canon(ro)
     done[4].append(E('mosromgrmeta', E('roDelete', E('roID', text='RO1'))))
